@@ -456,9 +456,14 @@ def check_accumulator_window(ctx, facts):
         rets = [x for x in b.live_blocks() if b.term(x)["k"] == "ret"]
         ok2 = len(incs) == 1 and all(flow.dominates(dom, incs[0], r) for r in rets)
         ctx.ob("WINDOW", f"{tag}:increment-once-on-every-path", ok2, "count += 1 exactly once per call" if ok2 else f"count is incremented {len(incs)} times / not on every path", site_of(b, incs[0]) if incs else site_of(b))
-        ok3 = test is not None and test[1][1] == "Eq" and bool(incs) and flow.dominates(dom, incs[0], test[0])
+        # `count == I` and `count != I` (with the branches swapped) are the same test: work with the edge on which they are equal
+        eq_edge = ne_edge = None
+        if test is not None and test[2] is not None and test[1][1] in ("Eq", "Ne"):
+            ne_edge, eq_edge = test[2] if test[1][1] == "Eq" else (test[2][1], test[2][0])
+        ok3 = test is not None and test[1][1] in ("Eq", "Ne") and bool(incs) and flow.dominates(dom, incs[0], test[0])
         ctx.ob("WINDOW", f"{tag}:test-eq-after-increment", ok3, "reduction is triggered when count == REDUCE_INTERVAL, tested after the increment" if ok3 else (f"reduction test is `{test[1][1]}` / not after the increment" if test else "no comparison of count with REDUCE_INTERVAL"), site_of(b, test[0]) if test else site_of(b))
-        ok4 = test is not None and test[2] is not None and bool(resets) and bool(reduces) and all(flow.dominates(dom, test[2][1], x) for x in resets + reduces) and all(x not in b.reachable(test[2][0]) or flow.dominates(dom, test[2][1], x) for x in resets + reduces)
+        ok4 = eq_edge is not None and bool(resets) and bool(reduces) and all(flow.dominates(dom, eq_edge, x) for x in resets + reduces) and all(x not in b.reachable(ne_edge) or flow.dominates(dom, eq_edge, x) for x in resets + reduces) \
+            and all(any(x in b.reachable(eq_edge, avoid=frozenset()) for x in xs) for xs in (resets, reduces)) and not _returns_avoiding(b, eq_edge, resets) and not _returns_avoiding(b, eq_edge, reduces)
         ctx.ob("WINDOW", f"{tag}:reduce-and-reset-on-true-edge", ok4, "value is reduced and count reset to 0 exactly when the interval is full" if ok4 else "the reduction / reset is not tied to the `count == REDUCE_INTERVAL` edge", site_of(b, test[0]) if test else site_of(b))
         tk = facts.bodies.get(path.replace("::multiply_accumulate", "::take"))
         if tk is None:
@@ -469,6 +474,14 @@ def check_accumulator_window(ctx, facts):
             okt = "truncate_from" in txt or any(flow.find_calls(c, re.compile(r"truncate_from$")) for c in clos)
             ctx.ob("WINDOW", f"{tag}:take-reduces", okt, "take() reduces the accumulated value", site_of(tk))
     ctx.floor("WINDOW", "deferred-reduction multiply_accumulate bodies", n, 2)
+
+
+def _returns_avoiding(b, start, blocks):
+    """a return reachable from `start` without passing any of `blocks`"""
+    if start in blocks:
+        return False
+    r = b.reachable(start, avoid=frozenset(blocks))
+    return any(b.term(x)["k"] == "ret" for x in r)
 
 
 def _loop_before(b, pb, inc):
